@@ -59,6 +59,25 @@ def c09(ctx):
         "private/public objects, in every reachable object population within the bounds; after every call the complete "
         "object set with all attribute values (API) and the decoded token directory (independent decoder, no junk "
         "files allowed) must equal the specification, which leaves both unchanged on failure.")
+    # under threads (ConcTok): a C_SetAttributeValue whose template is refused at its last entry, while another thread changes
+    # the same token key: after both calls, and after a restart, nothing of the refused template may be there.  (What other
+    # threads see WHILE the call runs, and a second change that is refused as "busy", are known findings of C18.)
+    if not ctx.violations:
+        import random
+        from checks import conc
+        lib = build.libpath(build.build("ossl"))
+        tot = conc.new_tot()
+        tcs = dict(Threads=conc.THREADS, PinSyms='{"P0", "P1", "P2", "PX", "A", "B"}', InitPin='"P0"',
+                   Dev='{"TransactionBusy", "DirtyRead", "TornWrite"}')
+        for combo in ([("Lt2,Lw2", 2, 2000, False, True)] if quick else [("Lt2,Lw2", 2, 30000, False, True), ("Lt2,Lw2", 1, 20000, True, True)]):
+            if not ctx.violations:
+                conc.run_combo(ctx, lib, combo, None, tcs, random.Random(ctx.seed), tot, tagp="c09-")
+        from vf.check import active_known
+        kn = {e["deviation"]: e for e in active_known(ctx.known) if e.get("deviation") in ("TornWrite", "DirtyRead")}
+        conf = conc.confirm_devs(ctx, tot, kn, tcs)
+        ctx.coverage["refused_change_under_threads"] = dict(schedules=tot["schedules"], executions=tot["executions"],
+                                                            accepted=tot["accepted"], deviation_confirmed=sorted(conf))
+        ctx.coverage["traces_validated_against_impl"] += tot["accepted"]
     # the fault clause: a call that fails because a file operation of the store failed has changed nothing
     if not ctx.violations:
         from checks import crash
